@@ -260,3 +260,25 @@ def field_sweeps(rng, data, fields, wide=96, narrow=24):
             continue
         for value in values:
             yield 'field-sweep-%d' % width, data[:offset] + value.to_bytes(width, 'big') + data[offset + width:]
+
+
+def small_u64_windows(data, limit=4):
+    """[(offset, 8)] of non-overlapping eight-byte windows that read as a positive number below 2^44 - how a 64-bit
+    counter, serial or millisecond timestamp looks wherever it sits, also deep inside length-prefixed structures where
+    cutting the input cannot locate it."""
+    data = bytes(data)
+    found, offset = [], 0
+    while offset + 8 <= len(data) and len(found) < limit:
+        if data[offset] == 0 and data[offset + 1] == 0 and data[offset + 2] < 0x10 and any(data[offset + 2:offset + 8]):
+            found.append((offset, 8))
+            # zero octets in front of the field make the alignment ambiguous: also the rightmost window that still
+            # starts with two zero octets
+            slid = offset
+            while slid + 9 <= len(data) and data[slid + 1] == 0 and data[slid + 2] == 0 and data[slid + 3] < 0x10:
+                slid += 1
+            if slid != offset:
+                found.append((slid, 8))
+            offset = slid + 8
+        else:
+            offset += 1
+    return found
